@@ -169,7 +169,19 @@ func (c *monC13) After(m *Machine, s *Step) *Violation {
 			m.flag("disabled:sms")
 		}
 		if dR && !dT && !(dS && post.SMSPhone != "") {
+			// re-enrolment of the very same number / secret still issues a fresh set of codes
+			sameSMS := op.K == "smsconfirm" && prevSMS != nil && !prevSMS.consumed && prevSMS.code == s.Secret && s.Secret != "" &&
+				prevSMS.number == r.SessBefore["sms_number"] && post.SMSPhone == r.SessBefore["sms_number"]
+			a, z := totpValidAt(s.Secret, r.SessBefore["totp_secret"], r.T0, r.T1)
+			sameTOTP := op.K == "totpconfirm" && (a || z) && post.TOTPSecretKey == r.SessBefore["totp_secret"]
 			switch {
+			case sameSMS:
+				prevSMS.consumed = true
+				m.flag("enabled:sms")
+				c.authed[b] = false
+			case sameTOTP:
+				m.flag("enabled:totp")
+				c.authed[b] = false
 			case op.K == "regen":
 				m.flag("regenerated")
 			case consumedOneRecovery(pre, post, s):
